@@ -158,7 +158,7 @@ def gen_log_project(rnd, n):
         nlines = rnd.randint(1, 4)
         for j in range(nlines):
             k += 1
-            steps.append(('line', k, rnd.choice(['', '', '', 'long', 'fake'])))
+            steps.append(('line', k, rnd.choice(['', '', '', 'long', 'fake', 'pieces'])))
             if pending and rnd.random() < 0.7:
                 cut = rnd.randint(1, len(pending))
                 steps.append(('call', pending[:cut]))
@@ -203,7 +203,11 @@ def materialize_log_project(rnd, p, targs, prog):
                 pad = ''
                 if flavour == 'long':
                     pad = ' ' + 'x' * rnd.choice([300, 5000, 70000])
-                lines.append('echo "L %s %d%s" >&2' % (t, k, pad))
+                if flavour == 'pieces':
+                    # one line reaching the follower in three reads (./configure style progress output)
+                    lines.append('printf "L " >&2; sleep 0.07; printf "%s " >&2; sleep 0.07; printf "%d\\n" >&2' % (t, k))
+                else:
+                    lines.append('echo "L %s %d%s" >&2' % (t, k, pad))
                 if flavour == 'fake':
                     lines.append('echo "@@REDO:do:1:nope@@ %s" >&2' % t)
             elif st[0] == 'partial':
